@@ -3,7 +3,8 @@ import SfntV.Model.TotalSeqCtx
 /-!
 Line protocol of the `tmseqctx.` verdict ops (property C02, group `seqctx`):
 `tmseqctx.read bytes=<hex> pos=<n>` → the outcome of the checked-index model of
-`readGsubSubtable` with lookup type 5 (`SeqCtx.gsub5`: format word, then `readSeqContext1/2/3`):
+`readGsubSubtable` with lookup type 5 as repaired (`SeqCtx.gsub5`: format word, then
+`readSeqContext1/2/3`; every other format word, the former key collisions included, is invalid):
 `ok:<canonical subtable>` | `err:<class>` | `panic`.
 `tmseqctx.nested bytes=<hex> pos=<n> count=<n>` → `readNested` with the parser at `pos`:
 `ok:<actions>` | `err:<class>` | `panic`.
